@@ -231,16 +231,34 @@ fn fresh_answer(fam: i64, a: &[i64]) -> Vec<i64> {
   }
   match cmd.output() {
     Ok(o) => ints(&String::from_utf8_lossy(&o.stdout)),
-    Err(_) => vec![-997],
+    Err(e) => {
+      // a tool failure (e.g. the harness binary was replaced while running), never a verdict
+      eprintln!("tvh: cannot start a fresh process: {}", e);
+      std::process::exit(3);
+    }
   }
 }
 
 /// long mixed histories in ONE warm process; every answer is compared with the answer of a fresh process
 fn mixed(ctx: &Ctx) -> usize {
-  let mut sink = ctx.sink("Trace_C10", "mixed");
-  let mut hsink = ctx.sink("Trace_C10", "mixedce");
-  let n = if ctx.quick() { 1500 } else { 20000 };
-  let mut rng = ctx.rng(8000);
+  let n = if ctx.quick() { 1200 } else { 20000 };
+  let mut total = mixed_run(ctx, "mixed", n, 8000, None);
+  // ... and histories whose years all come from one small pool {y, y+1, 10y..10y+19}
+  let (pools, per) = if ctx.quick() { (2, 450) } else { (12, 1200) };
+  let mut rng = ctx.rng(8100);
+  for k in 0..pools {
+    let y0 = rng.range(30, 990);
+    let mut pool: Vec<i64> = vec![y0, y0 + 1];
+    pool.extend((10 * y0)..(10 * y0 + 20));
+    total += mixed_run(ctx, &format!("mixedp{}", k), per, 8200 + k as u64, Some(pool));
+  }
+  total
+}
+
+fn mixed_run(ctx: &Ctx, tag: &str, n: i64, salt: u64, pool: Option<Vec<i64>>) -> usize {
+  let mut sink = ctx.sink("Trace_C10", tag);
+  let mut hsink = ctx.sink("Trace_C10", &format!("{}ce", tag));
+  let mut rng = ctx.rng(salt);
   cache_reset();
   hooks::install();
   let mut qs: Vec<(i64, Vec<i64>, Vec<i64>)> = Vec::new();
@@ -254,7 +272,10 @@ fn mixed(ctx: &Ctx) -> usize {
       hooks::install();
     }
     let fam = rng.range(0, NFAM - 1);
-    let a = gen(&mut rng, fam);
+    let a = match pool.as_ref() {
+      Some(p) => gen_pool(&mut rng, fam, p),
+      None => gen(&mut rng, fam),
+    };
     let w = answer(fam, &a);
     // every other query is followed by a close neighbour of the same family (same day / year, another instant / index)
     if rng.range(0, 1) == 0 {
